@@ -291,4 +291,62 @@ def step (reg : List TxRec) (p : Pool) : Op → Pool
 
 def run (reg : List TxRec) (p : Pool) (ops : List Op) : Pool := ops.foldl (step reg) p
 
+
+/-! ### the dedup cache as the validator path sees it (AddTx is not atomic for the cache)
+
+`AddTx` puts the transaction into the cache with `BasicChecked = false` BEFORE the basic check runs (outside `proxyMtx`), sets
+the flag after the check passed and deletes the entry when it failed.  `GetTxFromCache` = `CheckAndGet` returns only entries
+whose flag is set; `verifyTxsOnProcess` (validator path of `CheckBlock`) skips the basic check of a confidential transaction
+it finds there.  `PoolC` adds the set of in-flight ids (put, basic check not finished) to the pool; `putC` / `finishC` are
+the two halves of `AddTx`, every other operation runs between them unchanged. -/
+
+structure PoolC where
+  p : Pool
+  inflight : List Nat := []      -- ids in the cache whose BasicChecked flag is still false
+deriving Inhabited
+
+/-- first half of `AddTx`: `cache.Put(&mempoolCachedTx{tx, BasicChecked: false})` (a duplicate stops here) -/
+def putC (pc : PoolC) (e : E) : PoolC :=
+  if pc.p.cache.contains e.id then pc
+  else { p := { pc.p with cache := pc.p.cache ++ [e.id] }, inflight := pc.inflight ++ [e.id] }
+
+/-- second half of `AddTx` for an in-flight id: basic check, flag or delete, then admission as `addTx` does it -/
+def finishC (pc : PoolC) (e : E) : Cls × PoolC :=
+  if pc.inflight.contains e.id then
+    let r := addTx { pc.p with cache := pc.p.cache.filter (· != e.id) } e
+    (r.1, { p := r.2, inflight := pc.inflight.filter (· != e.id) })
+  else (.dup, pc)
+
+/-- `Mempool.GetTxFromCache` = `txCache.CheckAndGet`: present AND basic-checked -/
+def getTxFromCache (pc : PoolC) (id : Nat) : Bool := pc.p.cache.contains id && !pc.inflight.contains id
+
+/-- `verifyTxsOnProcess`: a confidential transaction found in the cache skips the basic check, every other confidential
+transaction is basic-checked here (account transactions are basic-checked inside `Process.checkValid`: `hardInvalid`) -/
+def precheck (hit : Nat → Bool) (es : List E) : Bool :=
+  es.all (fun e => decide (e.t.kind ≠ .uin) || hit e.id || (basic e.t == .ok))
+
+/-- what makes `Process` itself refuse the block whatever the caches hold -/
+def hardInvalid (e : E) : Bool := (decide (e.t.kind ≠ .uin) && e.t.broken.isSome) || (e.t.kind == .ain && feeLow e.t)
+
+/-- the block executes (proposer path `PreRunBlock`, and the `Process` step of `CheckBlock`) -/
+def execOk (c : St) (es : List E) : Bool := !es.any hardInvalid && (execX c [] (es.map (·.t))).isSome
+
+/-- validator-path verdict of a block on a node whose pool (and cache) is `pc` -/
+def verdict (pc : PoolC) (es : List E) : Bool := execOk pc.p.c es && precheck (getTxFromCache pc) es
+
+/-- the verdict of a node whose cache holds nothing (it never saw a submission) on the same committed ledger -/
+def verdictCold (c : St) (es : List E) : Bool := execOk c es && precheck (fun _ => false) es
+
+inductive OpC where
+  | seq (op : Op)            -- any atomic operation (a whole AddTx, a reap, a commit)
+  | put (id : Nat)           -- first half of an AddTx
+  | finish (id : Nat)        -- second half of that AddTx
+
+def stepC (reg : List TxRec) (pc : PoolC) : OpC → PoolC
+  | .seq op => { pc with p := step reg pc.p op }
+  | .put id => match reg[id]? with | some t => putC pc { id := id, t := t } | none => pc
+  | .finish id => match reg[id]? with | some t => (finishC pc { id := id, t := t }).2 | none => pc
+
+def runC (reg : List TxRec) (pc : PoolC) (ops : List OpC) : PoolC := ops.foldl (stepC reg) pc
+
 end Model.Mempool
